@@ -76,18 +76,11 @@ void dump_meta(zckCtx *zck, FILE *out, const char *prefix) {
 }
 
 /* ------------------------------------------------------------------ reading */
-read_res lib_read_all(int fd, const int *sched, int nsched, size_t cap, bool want_rets) {
+/* read to the end on an already opened context (closes it, does not free it) */
+read_res lib_read_ctx(zckCtx *zck, const int *sched, int nsched, size_t cap, bool want_rets) {
     read_res r;
     memset(&r, 0, sizeof r);
-    real_lseek(fd, 0, SEEK_SET);
-    zckCtx *zck = zck_create();
-    if(!zck) die("zck_create");
-    r.open_ok = zck_init_read(zck, fd);
-    if(!r.open_ok) {
-        snprintf(r.err, sizeof r.err, "%s", zck_get_error(zck));
-        zck_free(&zck);
-        return r;
-    }
+    r.open_ok = 1;
     size_t bcap = 1 << 16;
     r.content.p = malloc(bcap);
     int maxbuf = 1;
@@ -121,8 +114,23 @@ read_res lib_read_all(int fd, const int *sched, int nsched, size_t cap, bool wan
     }
     snprintf(r.err, sizeof r.err, "%s", zck_get_error(zck));
     r.close_ok = zck_close(zck);
-    zck_free(&zck);
     free(buf);
+    return r;
+}
+
+read_res lib_read_all(int fd, const int *sched, int nsched, size_t cap, bool want_rets) {
+    real_lseek(fd, 0, SEEK_SET);
+    zckCtx *zck = zck_create();
+    if(!zck) die("zck_create");
+    if(!zck_init_read(zck, fd)) {
+        read_res r;
+        memset(&r, 0, sizeof r);
+        snprintf(r.err, sizeof r.err, "%s", zck_get_error(zck));
+        zck_free(&zck);
+        return r;
+    }
+    read_res r = lib_read_ctx(zck, sched, nsched, cap, want_rets);
+    zck_free(&zck);
     return r;
 }
 
